@@ -678,6 +678,23 @@ func (x *Exec) evalCall(env *Env, e *ECall) (Value, types.Type) {
 		sv, _ := x.eval(env, e.Args[0])
 		iv, _ := x.eval(env, e.Args[1])
 		return ufApp(ufSRune, sv.(*Term), iv.(*Term)), types.Typ[types.Int32]
+	case "variant": // variant(k): the value loop k's variant had at its most recent loop head on this path
+		kk, _ := isLitInt(func() *Term { v, _ := x.eval(env, e.Args[0]); return v.(*Term) }())
+		fr := env.frame
+		ix := env.frameIx
+		if fr == nil {
+			fr = env.st.frames[0]
+			ix = 0
+		}
+		li := x.loopsOf(fr.fn)
+		for _, h := range li.headers {
+			if li.ordinal[h] == int(kk) {
+				if v, ok := env.st.heap["VARIANT|"+variantKey(ix, h)]; ok {
+					return v, intT
+				}
+			}
+		}
+		panic(fmt.Sprintf("contract: variant(%d): loop has no decreases clause or has not been entered", kk))
 	case "bitand": // bitand(a, b): a & b (bit arithmetic is uninterpreted; the same symbol the code's & is translated to)
 		a, at := x.eval(env, e.Args[0])
 		b, _ := x.eval(env, e.Args[1])
